@@ -27,20 +27,20 @@ def configs(tier):
     C["prio_c2"] = base("prio", Cap=2, Prios={0, 1}, MaxLive=4 if q else 5)
     C["prio_c1"] = base("prio", Cap=1, Prios={0, 1}, MaxLive=4 if q else 5)
     C["plain_c2"] = base("plain", Cap=2, MaxLive=4 if q else 6)
-    C["filter_c2"] = base("filter", Cap=2, Prios={0, 1} if not q else {0}, Filters={0, 1, 2}, Tags={0, 1}, Trig=1,
-                          MaxLive=3 if q else 4)
+    C["filter_c2"] = base("filter", Cap=2, Prios={0, 1} if not q else {0}, Filters={0, 1, 2}, Tags={0, 1}, Trig=1, MaxLive=3)
     C["buffer_fifo"] = base("buffer", Cap=2, Delays={0, 1}, MaxLive=4)
     C["buffer_lifo"] = base("buffer", Cap=2, Mode="LIFO", Delays={0, 1}, MaxLive=4)
     C["fleet_d2t1"] = base("fleet", Cap=2, FDelay=2, Transit=1, MaxLive=3 if q else 4)
     C["fleet_d1t0"] = base("fleet", Cap=2, FDelay=1, Transit=0, MaxLive=3 if q else 4)
     if not q:
-        C["prio_c3"] = base("prio", Cap=3, Prios={-1, 0, 1}, MaxLive=5)
+        C["prio_c3"] = base("prio", Cap=3, Prios={0, 1, 2}, MaxLive=4)     # (a .cfg cannot hold negative numbers)
         C["buffer_fifo_c3"] = base("buffer", Cap=3, Delays={0, 1, 2}, MaxLive=4)
         C["buffer_lifo_c3"] = base("buffer", Cap=3, Mode="LIFO", Delays={0, 1, 2}, MaxLive=4)
         C["fleet_c3"] = base("fleet", Cap=3, FDelay=3, Transit=1, MaxLive=4)
         C["fleet_d2t0"] = base("fleet", Cap=2, FDelay=2, Transit=0, Prios={0, 1}, MaxLive=4)
-        C["filter_c3"] = base("filter", Cap=3, Filters={0, 1, 2}, Tags={0, 1}, Trig=1, MaxLive=4)
-        C["filter_t0"] = base("filter", Cap=2, Filters={0, 1, 2, 3}, Tags={0, 1}, Trig=0, Prios={0, 1}, MaxLive=4)
+        C["filter_c3"] = base("filter", Cap=3, Filters={0, 1, 2}, Tags={0, 1}, Trig=1, MaxLive=3)
+        C["filter_t0"] = base("filter", Cap=2, Filters={1, 2, 3}, Tags={0, 1}, Trig=0, Prios={0, 1}, MaxLive=3)
+        C["filter_m4"] = base("filter", Cap=2, Filters={0, 2}, Tags={0, 1}, Trig=1, MaxLive=4, Procs={0})
     return C
 
 
